@@ -53,6 +53,9 @@ pub fn mask_for(prop: &str) -> Mask {
             m.proofs = true;
             m.witness = true;
         }
+        // corpus histories of C14 / C15 (operations that used to hang or that exhaust the table): only
+        // "it returns" and "it does not panic" are judged, the outcome classes belong to other engines
+        "C14" | "C15" => {}
         _ => m = Mask::all(),
     }
     m
